@@ -274,6 +274,21 @@ func ParserProbes() []PProbe {
 			return Tree(p.ParseContextFromModelTokens(context.Background(), valid))
 		}},
 		{"recovery", func(p *parser.Parser) string { return Recovery(p.ParseWithRecoveryFromModelTokens(rec)) }},
+		// when and how often the context is consulted is part of the answer: a cancellation that arrives at the k-th
+		// poll inside a statement must be seen at the same place whatever the instance parsed before
+		{"ctx-poll-count", func(p *parser.Parser) string {
+			c := NewCountCtx(-1, nil)
+			_, err := p.ParseContextFromModelTokens(c, valid)
+			return fmt.Sprintf("polls=%d err=%v", c.Calls, err != nil)
+		}},
+		{"ctx-cancel-poll-4", func(p *parser.Parser) string {
+			c := NewCountCtx(4, context.Canceled)
+			return Tree(p.ParseContextFromModelTokens(c, valid)) + fmt.Sprintf(" polls=%d", c.Calls)
+		}},
+		{"ctx-cancel-poll-9", func(p *parser.Parser) string {
+			c := NewCountCtx(9, context.DeadlineExceeded)
+			return Tree(p.ParseContextFromModelTokens(c, valid)) + fmt.Sprintf(" polls=%d", c.Calls)
+		}},
 		// the public ParseWithPositions with conversion results built by hand (the type is exported and has no constructor):
 		// no position table, and a table shorter than the token list - the location reported must come from this call
 		{"err-handbuilt-nomap", func(p *parser.Parser) string {
